@@ -1,7 +1,7 @@
 CONSTANTS
-  MaxStack = 4
-  Budget = 4
-  Enabled = {"Mut", "Name", "UnaryOp", "BinOp", "Call", "Tuple", "List", "Lambda", "IfExp", "Subscript", "Attribute", "Expression"}
+  MaxStack = 3
+  Budget = 3
+  Enabled = {"Mut", "MutAll", "Name", "UnaryOp", "BinOp", "Call", "Tuple", "List", "Lambda", "IfExp", "Subscript", "Attribute", "Expression"}
   NameSet = {"a"}
   ExtraParens = FALSE
   Emit = TRUE
